@@ -173,6 +173,26 @@ def check(run):
         okd = t is not None and any(h.type is not None and u(h.type) in ('UnicodeDecodeError', 'UnicodeError', 'ValueError', 'Exception') and
                                     isinstance(h.body[-1], ast.Raise) and u(h.body[-1].exc.func) == 'PkgConfigError' for h in t.handlers)
     run.ob('Q3/undecodable-output-becomes-PkgConfigError', 'call', 'try: bout.decode(encoding) except UnicodeDecodeError: raise PkgConfigError', okd, m.where(cf))
+    # ... and the decoding must be able to fail: a lenient error handler (surrogateescape, replace, ignore) never raises
+    if dec:
+        c = dec[0]
+        err = c.args[1] if len(c.args) > 1 else next((k.value for k in c.keywords if k.arg == 'errors'), None)
+        handlers = []
+        if err is None:
+            handlers = ['strict']
+        elif isinstance(err, ast.Constant):
+            handlers = [err.value]
+        elif isinstance(err, ast.Name):
+            for n in ast.walk(cf):
+                if isinstance(n, ast.Assign) and any(isinstance(t, ast.Name) and t.id == err.id for t in n.targets):
+                    handlers.append(n.value.value if isinstance(n.value, ast.Constant) else u(n.value))
+            for a, d in zip(cf.args.args[-len(cf.args.defaults):] if cf.args.defaults else [], cf.args.defaults):
+                if a.arg == err.id:
+                    handlers.append(d.value if isinstance(d, ast.Constant) else u(d))
+        else:
+            handlers = [u(err)]
+        run.ob('Q3/output-decoded-strictly', 'call', u(c), bool(handlers) and all(h == 'strict' for h in handlers), m.where(c),
+               'error handler(s) %s: with anything but "strict" undecodable bytes are smuggled into the build keywords instead of raising PkgConfigError' % handlers)
     retv = [s for s in cf.body if isinstance(s, ast.Return)]
     run.ob('Q3/call-returns-the-decoded-output', 'call', 'return bout', len(retv) == 1 and u(retv[0].value) == 'bout', m.where(cf))
     run.min_instances('Q1', 20)
